@@ -187,10 +187,22 @@ class Sim:
                 rem = "".join("<D:displayname/>" if k == "D:displayname" else
                               '<C:calendar-description xmlns:C="urn:ietf:params:xml:ns:caldav"/>' for k in r.get("remove", []))
                 body = '<?xml version="1.0"?><D:propertyupdate xmlns:D="DAV:">'
-                if sets:
-                    body += "<D:set><D:prop>%s</D:prop></D:set>" % sets
-                if rem:
-                    body += "<D:remove><D:prop>%s</D:prop></D:remove>" % rem
+                if r.get("order"):
+                    # instructions in document order, one element each (RFC 4918 9.2: processed in document order);
+                    # `set` / `remove` of the request hold the equivalent "last instruction per property wins" form
+                    for ins in r["order"]:
+                        el = ("<D:displayname%s" if ins[1] == "D:displayname" else
+                              '<C:calendar-description xmlns:C="urn:ietf:params:xml:ns:caldav"%s')
+                        close = "</D:displayname>" if ins[1] == "D:displayname" else "</C:calendar-description>"
+                        if ins[0] == "set":
+                            body += "<D:set><D:prop>%s%s</D:prop></D:set>" % (el % (">" + ins[2]), close)
+                        else:
+                            body += "<D:remove><D:prop>%s</D:prop></D:remove>" % (el % "/>")
+                else:
+                    if sets:
+                        body += "<D:set><D:prop>%s</D:prop></D:set>" % sets
+                    if rem:
+                        body += "<D:remove><D:prop>%s</D:prop></D:remove>" % rem
                 body += "</D:propertyupdate>"
         elif m == "PROPFIND":
             body = PROPFIND_BODY
@@ -338,6 +350,7 @@ def warmup(rng):
             {"method": "PUT", "path": ["u", "c1", "a.ics"], "body": "cal", "objs": [cal("u3")]},
             {"method": "PUT", "path": ["u", "c1", "b.ics"], "body": "cal", "objs": [cal("u4")]},
             {"method": "MKCALENDAR", "path": ["u", "c2"], "props": []},
+            {"method": "PUT", "path": ["u", "c2", "c.ics"], "body": "cal", "objs": [cal("u3")]},     # the same UID in two calendars
             {"method": "PUT", "path": ["u", "ab", "k.vcf"], "body": "cards", "objs": [rng.choice([o for o in POOL if o["kind"] == "VCARD"])]}]
     return reqs[:rng.randint(2, len(reqs))]
 
@@ -441,6 +454,13 @@ def gen_request(rng, sim, known_etags):
         return r
     if k < 0.74:
         store = [e for e in (getattr(sim, "model_store", None) or []) if any(not i["href"].startswith("#") for i in e["items"])]
+        dup = [(a, i, b) for a in store for i in a["items"] if not i["href"].startswith("#")
+               for b in store if b is not a and b.get("tag") == a.get("tag") and any(j["uid"] == i["uid"] for j in b["items"])]
+        if dup and rng.random() < 0.35:
+            # the object's UID already lives in the destination collection under another name: a free destination name, Overwrite T or F
+            a, i, b = rng.choice(dup)
+            return {"method": "MOVE", "path": list(a["path"]) + [i["href"]], "dest": list(b["path"]) + [rng.choice(["zz", "free.ics", "k2.vcf"])],
+                    "overwrite": rng.random() < 0.6}
         if store and rng.random() < 0.5:
             # MOVE of an item that exists, onto a name that exists (same or other UID) or is free, in the same or another collection
             src_c = rng.choice(store)
@@ -452,6 +472,20 @@ def gen_request(rng, sim, known_etags):
                     "overwrite": rng.random() < 0.65}
         dst = rng.choice(COLLS[1:6]) + [rng.choice(HREFS)] if rng.random() < 0.9 else rng.choice(COLLS)
         return {"method": "MOVE", "path": item_path if rng.random() < 0.9 else coll, "dest": dst, "overwrite": rng.random() < 0.5}
+    if 0.74 <= k < 0.80 and tagged and rng.random() < 0.7:
+        coll = list(rng.choice(tagged)["path"])         # PROPPATCH mostly on a collection that exists
+    if k < 0.80 and rng.random() < 0.5:
+        # several instructions on the same properties in one body, in any order: the last one per property decides
+        order = []
+        for _ in range(rng.randint(2, 4)):
+            key = rng.choice(["D:displayname", "D:displayname", "C:calendar-description"])
+            order.append(["set", key, "v%d" % rng.randint(0, 3)] if rng.random() < 0.55 else ["remove", key])
+        last = {}
+        for ins in order:
+            last[ins[1]] = ins
+        return {"method": "PROPPATCH", "path": coll if rng.random() < 0.9 else item_path, "as_collection": True, "order": order,
+                "set": [[k2, i[2]] for k2, i in sorted(last.items()) if i[0] == "set"],
+                "remove": [k2 for k2, i in sorted(last.items()) if i[0] == "remove"], "sets_type": False, "bad_body": False}
     if k < 0.80:
         return {"method": "PROPPATCH", "path": coll if rng.random() < 0.85 else item_path, "as_collection": True,
                 "set": rng.choice([[], [["D:displayname", "n%d" % rng.randint(0, 3)]], [["C:calendar-description", "d"]]]),
